@@ -134,6 +134,8 @@ type World struct {
 	// a snapshot taken with CopyRoot: a trie of its own from then on
 	Snap  *wmpt.WeightedMerkleTrie
 	SnapM *model.WModel
+	// Alt: updates and deletes go through the other exported mutators, Put and Delete
+	Alt bool
 }
 
 func NewWorld(sh Shared) *World {
@@ -158,7 +160,11 @@ func (w *World) Apply(o Op) (fail string) {
 	switch o.K {
 	case 'U':
 		v := w.Shared.value(o.Val, o.Key)
-		if err := w.T.Update(Keys[o.Key], []byte(v), Weight(v)); err != nil {
+		if w.Alt {
+			if err := w.T.Put(Keys[o.Key], []byte(v), Weight(v)); err != nil {
+				return fmt.Sprintf("Put returned %v", err)
+			}
+		} else if err := w.T.Update(Keys[o.Key], []byte(v), Weight(v)); err != nil {
 			return fmt.Sprintf("update returned %v", err)
 		}
 		w.M.M[string(Keys[o.Key])] = model.WEntry{Key: Keys[o.Key], Value: []byte(v), Weight: Weight(v)}
@@ -176,7 +182,16 @@ func (w *World) Apply(o Op) (fail string) {
 			w.EverShared[v] = true
 		}
 	case 'X':
-		err := w.T.Update(Keys[o.Key], nil, 0)
+		var err error
+		if w.Alt {
+			var freed uint64
+			freed, err = w.T.Delete(Keys[o.Key])
+			if e, ok := w.M.M[string(Keys[o.Key])]; ok && err == nil && freed != e.Weight {
+				return fmt.Sprintf("Delete reports %d released, the key's weight was %d", freed, e.Weight)
+			}
+		} else {
+			err = w.T.Update(Keys[o.Key], nil, 0)
+		}
 		if _, ok := w.M.M[string(Keys[o.Key])]; ok {
 			if err != nil {
 				return fmt.Sprintf("delete of live key returned %v", err)
